@@ -1,15 +1,82 @@
-"""C16 - exports, saves and queries never modify the tracks"""
+"""C16 - exports, saves and queries never modify the tracks."""
+import os
+
 LEVEL = "other"
-TRUSTED = ["reference semantics written from the property statement (native/pure_bounded.py)"]
-EXPLANATION = ("BOUNDED STAND-IN ONLY: a deep snapshot (graph with all attributes, segmentation bytes, scale, feature registry and keys, lookups, history lengths, counters) is compared before/after export_to_csv, export_to_geff (full and subset), save_tracks and the read-only queries, for scale None/given, single-key/per-axis position, with/without segmentation.")
-ASSUMPTIONS = ["bounded stand-in only: exhaustive/sampled over the stated finite space, not a proof"]
-NOT_UNDER_CONTRACT = ["export_to_csv", "export_to_geff", "split_position_attr", "save_tracks", "queries of Tracks/SolutionTracks"]
+TRUSTED = ["may-alias frame analysis (pyvc/framecheck.py): flow-insensitive taint from the tracks parameter; result of copy()/list()/dict()/"
+           "np.asarray()/comprehensions is fresh; repository callees are followed by parameter position (return aliasing per tuple component)",
+           "third-party calls that receive (a part of) the tracks are assumed read-only: geff.write, np.save, json.dump, pandas constructors, "
+           "skimage.util.map_array, tifffile.imwrite (listed per function in coverage.frame_assumptions)"]
+EXPLANATION = ("DECIDED BY STATIC FRAME ANALYSIS of the real AST (one obligation per function under the frame contract, plus one per write-like "
+               "statement met): no assignment, deletion or mutator call goes through a value that may alias the tracks object, in export_to_csv, "
+               "export_to_geff (+split_position_attr), save_tracks (+_save_graph/_save_seg/_save_attrs) and the read-only queries of "
+               "Tracks/SolutionTracks. One write is allowed with a stated reason: get_track_neighbors sorts a lookup list in place (the lookup as a "
+               "bag is unchanged - the property compares lookups as sets). BOUNDED STAND-IN in addition: deep snapshot before/after each operation.")
+ASSUMPTIONS = ["third-party callees are read-only on their arguments", "networkx Graph.copy() copies the attribute dictionaries"]
+NOT_UNDER_CONTRACT = ["geff.write / np.save / json.dump / pandas / tifffile internals"]
+
+EXPORTERS = [
+    ("funtracks.import_export.csv._export.export_to_csv", "tracks"),
+    ("funtracks.import_export.geff._export.export_to_geff", "tracks"),
+    ("funtracks.import_export.geff._export.split_position_attr", "tracks"),
+    ("funtracks.import_export.internal_format.save_tracks", "tracks"),
+    ("funtracks.import_export.internal_format._save_graph", "tracks"),
+    ("funtracks.import_export.internal_format._save_seg", "tracks"),
+    ("funtracks.import_export.internal_format._save_attrs", "tracks"),
+]
+T = "funtracks.data_model.tracks.Tracks."
+S = "funtracks.data_model.solution_tracks.SolutionTracks."
+QUERIES = [T + m for m in ("nodes", "edges", "in_degree", "out_degree", "predecessors", "successors", "get_positions", "get_position",
+                           "get_times", "get_time", "get_pixels", "get_node_attr", "get_nodes_attr", "get_edge_attr", "get_edges_attr",
+                           "get_available_features", "_check_existing_feature", "_compute_ndim")] + \
+          [S + m for m in ("get_next_track_id", "get_next_lineage_id", "get_track_id", "get_lineage_id", "get_track_neighbors",
+                           "has_track_id_at_time", "max_track_id", "track_id_to_node", "export_tracks")]
 
 
 def units(tier):
     return []
 
 
+def analysis_obligations(tier):
+    from pyvc import framecheck as fc
+    from pyvc.frontend import Repo
+    R = Repo()
+
+    def resolve(call):
+        cn = fc.call_name(call)
+        if cn is None:
+            return None
+        for m in R.modules.values():
+            g = m.globals.get(cn)
+            if g and g[0] == "func" and m.name.startswith("funtracks.import_export"):
+                return (g[1].qualname, g[1].node)
+        for q in ("funtracks.data_model.solution_tracks.SolutionTracks", "funtracks.data_model.tracks.Tracks",
+                  "funtracks.features._feature_dict.FeatureDict"):
+            f = R.get_class(q).find(cn)
+            if f and isinstance(call.func, __import__("ast").Attribute):
+                return (f"{f[0].qualname}.{cn}", f[1])
+        return None
+
+    out = []
+    for q, param in EXPORTERS + [(q, "self") for q in QUERIES]:
+        try:
+            fi = R.get_function(q)
+        except KeyError:
+            out.append({"label": f"C16/{q.split('.')[-1]}/frame:function-present", "ok": False, "note": "function vanished", "func": q})
+            continue
+        obs, ass = fc.analyse(fi.node, {param}, q, resolve)
+        bad = [o for o in obs if not o[2]]
+        short = ".".join(q.split(".")[-2:]) if q.startswith(("funtracks.data_model",)) else q.split(".")[-1]
+        src = {"file": os.path.relpath(fi.module.path, "/repo"), "lines": list(fi.span()), "sha256": fi.sha256()}
+        out.append({"label": f"C16/{short}/frame:modifies-nothing-reachable-from-the-tracks", "ok": not bad, "func": q, "source": src,
+                    "note": "; ".join(f"line {ln}: {tx} - {why}" for ln, tx, _ok, why in bad)[:600] or
+                            f"{len(obs)} write-like statements / followed calls examined; assumptions: {len(ass)}"})
+        for ln, tx, ok, why in obs:
+            if ok and why.startswith("allowed"):
+                out.append({"label": f"C16/{short}/frame:allowed-write:{tx[:40]}", "ok": True, "func": q, "note": why})
+    return out
+
+
 def bounded(tier, seed):
     from pyvc.native_bridge import bounded_pure
-    return [bounded_pure(tier, "c16", "c16", "4 (+sampled) forests x seg on/off x scale None/given x position single/per-axis x 6 operations", seed, exhaustive=False)]
+    return [bounded_pure(tier, "c16", "c16", "deep snapshot of the tracks before/after each exporter, save and query; 4 (+sampled) forests x seg "
+                         "on/off x scale None/given x position single/per-axis", seed, exhaustive=False)]
